@@ -20,11 +20,17 @@ P("C29",
              "up-then-down shortest-path routing, depth-based channel ranking); c29_tree_routes_are_c30_tables proves that on every graph that is a tree up to node "
              "numbering the table C30's Floyd-Warshall model computes names, port-accurately, exactly the next node of that tree route (and its distance is the "
              "route length), so the tree theorem speaks about the tables the code computes; c29_tree_certificate_sound makes the tree hypotheses decidable and the "
-             "check evaluates the certificate on the graph of every generated PCIe network. Every run of the check executes real mesh 2D/3D, PCIe, NVLink/PCIe and generic "
+             "check evaluates the certificate on the graph of every generated PCIe network. c29_buffer_series_refines_one_fifo / c29_buffer_series_progress prove that the "
+             "series of bounded FIFO buffers a flit crosses between two arbitration points (send-out, port out, port in, pipeline stages, route, forward) refines ONE "
+             "bounded FIFO of capacity = the sum (order kept, nothing lost or duplicated) and is as live as it; the check verifies on every run that one-lane switches "
+             "keep per (input port, output port) arrival order. Every run of the check executes real mesh 2D/3D, PCIe, NVLink/PCIe and generic "
              "networks to quiescence, feeds the device-port event list to the acceptor inside Coq, and ties flit counts and switch paths of the real traffic to the C31/C30 models.",
-  level_note="PARTIAL: the switch pipeline internals (receive pipeline, route/forward/send-out buffers, round-robin arbitration) are "
-             "not modelled line by line; they are covered by trace inclusion of sampled real runs and by the abstract channel network (every buffer on a flit's way = "
-             "one bounded FIFO channel), which is instantiated and proved deadlock-free and exactly-once for meshes and trees. NVLink hybrids and "
+  level_note="PARTIAL: the switch middlewares are not modelled line by line: each buffer on a flit's way is taken to be a bounded FIFO that hands its head on when "
+             "the next has room (then the series is one FIFO channel by c29_buffer_series_refines_one_fifo, and the channel network is proved deadlock-free and exactly-once for "
+             "meshes and trees); tick-level timing, the round-robin arbitration cursor and the tracing hooks are abstracted by the arbitration oracle. With more than one lane "
+             "per port (NumInputChannel > 1: mesh bandwidth > 1, generic links with 2 channels) queueing.Pipeline can emit flits of one port in a different order than they "
+             "entered (observed in most such runs, tag switch-reordered-flits); this does not affect exactly-once delivery (reassembly counts flits) but the FIFO refinement "
+             "is then only a bounded-bag refinement, which is not formalised. Covered throughout by trace inclusion of real runs. NVLink hybrids and "
              "general graphs (rings can deadlock with bounded buffers) have no progress theorem, only the tie.",
   assumptions=["message IDs handed to the network are unique and the sending port is the message's Src (generator obligation, re-checked by the acceptor)",
                "devices keep draining their ports (the scripted devices drain 1-2 messages per port every 1-3 ticks)",
